@@ -41,6 +41,7 @@ ASSUMPTIONS = [
 ]
 REQUIRED = ["op_get_subtree", "op_node_subtree", "op_to_subtree", "op_cut_enter", "op_cut_leave",
             "op_cut_type", "op_cut_order", "op_cut_tip", "op_neurites", "op_dendrites",
+            "transform_instance_reused",
             "mappings_checked", "tip_exact_threshold_cases", "exhaustive_subsets",
             "tap_to_sub_topology", "tap_propagate_removal", "tap_get_subtree_impl"]
 FLOOR = {"quick": 2500, "thorough": 50000}
@@ -234,6 +235,18 @@ def _op_cut_leave(ctx, case, spec, tree):
              "cut_tree(leave)")
 
 
+def _warm_up(ctx, case, tr):
+    """Apply the transform instance to a decoy tree first: an instance carries no state from one
+    tree to the next (what it designated for an earlier tree must not be removed from a later one)."""
+    if case.get("reuse") is None:
+        return
+    decoy = G.build(G.spec_from_recipe({"shape": "binary", "n": 25, "numbering": "sorted",
+                                        "geom": case["tree"].get("geom", "growth"),
+                                        "types": "random", "extras": 0, "seed": case["reuse"]}))
+    tr(decoy)
+    ctx.count("transform_instance_reused")
+
+
 def _op_cut_type(ctx, case, spec, tree):
     from swcgeom.transforms import CutAxonTree, CutByType, CutDendriteTree
 
@@ -247,6 +260,7 @@ def _op_cut_type(ctx, case, spec, tree):
             w = int(pid[w])
     via = case.get("via", "type")
     tr = {"type": lambda: CutByType(t), "axon": CutAxonTree, "dendrite": CutDendriteTree}[via]()
+    _warm_up(ctx, case, tr)
     out = tr(tree)
     ctx.count("op_cut_type")
     _compare(ctx, case, spec, out, sorted(keep), int(spec["tag"][0]), f"CutByType({t}) via {via}")
@@ -262,7 +276,9 @@ def _op_cut_order(ctx, case, spec, tree):
     for v in topo.descendants(ch, 0):  # parents are popped before their children
         for c in ch[v]:
             lvl[c] = lvl[v] + (1 if len(ch[c]) >= 2 else 0)
-    out = CutByFurcationOrder(k)(tree)
+    tr = CutByFurcationOrder(k)
+    _warm_up(ctx, case, tr)
+    out = tr(tree)
     ctx.count("op_cut_order")
     _compare(ctx, case, spec, out, [i for i in range(len(pid)) if lvl[i] < k],
              int(spec["tag"][0]), f"CutByFurcationOrder({k})")
@@ -302,7 +318,10 @@ def _op_cut_tip(ctx, case, spec, tree):
     reported = []
     cb = (lambda br: reported.append(tuple(int(i) for i in br.origin_id()))) \
         if case.get("callback") else None
-    out = CutShortTipBranch(thre, callback=cb)(tree)
+    tr = CutShortTipBranch(thre, callback=cb)
+    _warm_up(ctx, case, tr)
+    del reported[:]  # (branches reported for the decoy are not this tree's)
+    out = tr(tree)
     ctx.count("op_cut_tip")
     if exact and any(L == thre for L, _ in cands):
         ctx.count("tip_exact_threshold_cases")
@@ -409,6 +428,8 @@ def _workload(ctx):
 
         def go(case):
             case = {"tree": rc, **case}
+            if case["op"] in ("cut_type", "cut_order", "cut_tip") and rng.random() < 0.5:
+                case["reuse"] = int(rng.integers(0, 2**31 - 1))
             ctx.case(case, nontrivial=n >= 3, klass=f"{case['op']}/{rc['shape']}")
             execute(ctx, case)
 
